@@ -44,12 +44,13 @@ try:
     res["checks"] = {}
     for c in checks:
         t0 = time.time()
-        r = run(["./check", c, "--tier", "quick"], cwd="/verif", env=dict(os.environ, VERIF_REPO=wt), timeout=3600)
+        r = run(["./check", c, "--tier", "quick"], cwd="/verif", env=dict(os.environ, VERIF_REPO=wt, VERIF_OUT="/verif/.scratch/seedout-%d" % os.getpid()), timeout=3600)
         out = (r.stdout + r.stderr).strip().splitlines()
         res["checks"][c] = dict(exit=r.returncode, caught=r.returncode == 1, secs=round(time.time() - t0), lines=[l for l in out if l.startswith(("VIOLATION", "  bucket"))][:6])
 finally:
     run(["git", "-C", wt, "checkout", "--", "."])
     subprocess.run("find %s -name __pycache__ -prune -exec rm -rf {} +" % wt, shell=True)
+shutil.rmtree("/verif/.scratch/seedout-%d" % os.getpid(), ignore_errors=True)
 out = "/verif/seeded/" + name
 os.makedirs(out, exist_ok=True)
 shutil.copy(sd + "/patch.diff", out + "/patch.diff")
